@@ -164,3 +164,6 @@ pub mod rm;
 pub mod walk;
 pub mod dumpgen;
 pub mod corpus;
+pub mod reader;
+pub mod rich;
+pub mod readercases;
